@@ -45,6 +45,7 @@ type Run struct {
 
 	solverTime map[string]float64
 	mu         sync.Mutex
+	confProc   *smt.Proc
 }
 
 type KnownFinding struct {
@@ -58,6 +59,7 @@ type KnownFinding struct {
 }
 
 type HarnessResult struct {
+	Cfg          *interp.Config
 	Spec         HarnessSpec
 	Pkg          string
 	Paths        int
@@ -364,7 +366,7 @@ func (r *Run) explore(g Group, h HarnessSpec, fn *ssa.Function) *HarnessResult {
 		}
 		return smt.Unknown, nil
 	}
-	hr := &HarnessResult{Spec: h, Pkg: g.Pkg, Statuses: map[string]int{}, Reached: map[string]int{}, Funcs: map[string]bool{}, Stubs: map[string]bool{}}
+	hr := &HarnessResult{Cfg: cfg, Spec: h, Pkg: g.Pkg, Statuses: map[string]int{}, Reached: map[string]int{}, Funcs: map[string]bool{}, Stubs: map[string]bool{}}
 
 	var mu sync.Mutex
 	work := [][]interp.Decision{nil}
@@ -659,26 +661,37 @@ func (r *Run) native(results []*HarnessResult) {
 			if err != nil {
 				continue
 			}
+			// the engine re-runs the same inputs concretely (real hashes/ciphers on both sides)
+			cres := r.concreteRun(hr, w.Values)
+			if cres == nil {
+				continue
+			}
 			hr.Conformance++
 			var diff []string
-			if w.Status == "ok" {
-				if fmt.Sprint(no.Reached) != fmt.Sprint(w.Reached) {
-					diff = append(diff, fmt.Sprintf("reach engine=%v native=%v", w.Reached, no.Reached))
-				}
-				if fmt.Sprint(no.Observed) != fmt.Sprint(w.Observed) {
-					diff = append(diff, fmt.Sprintf("observe engine=%v native=%v", w.Observed, no.Observed))
-				}
-				if no.Panic != "" {
-					diff = append(diff, "native panic: "+no.Panic)
-				}
-				if no.Assume {
-					diff = append(diff, "native assume false")
-				}
-			} else if w.Status == "panic" && no.Panic == "" {
-				diff = append(diff, "engine panic, native none")
+			if fmt.Sprint(no.Reached) != fmt.Sprint(cres.Reached) {
+				diff = append(diff, fmt.Sprintf("reach engine=%v native=%v", cres.Reached, no.Reached))
+			}
+			if fmt.Sprint(no.Observed) != fmt.Sprint(cres.Observed) {
+				diff = append(diff, fmt.Sprintf("observe engine=%v native=%v", cres.Observed, no.Observed))
+			}
+			if fmt.Sprint(no.Asserts) != fmt.Sprint(cres.ConcreteFails) && !(cres.Status == "panic") {
+				diff = append(diff, fmt.Sprintf("failed asserts engine=%v native=%v", cres.ConcreteFails, no.Asserts))
+			}
+			if (no.Panic != "") != (cres.Status == "panic") {
+				diff = append(diff, fmt.Sprintf("panic engine=%q native=%q", cres.Msg, no.Panic))
+			}
+			if no.Assume != (cres.Status == "assume") {
+				diff = append(diff, fmt.Sprintf("assume-false engine=%v native=%v", cres.Status == "assume", no.Assume))
+			}
+			if cres.Status != "ok" && cres.Status != "panic" && cres.Status != "assume" && cres.Status != "cut" {
+				diff = append(diff, "engine concrete run status "+cres.Status+": "+firstLines(cres.Msg, 3))
 			}
 			if len(diff) > 0 {
-				hr.ConfMismatch = append(hr.ConfMismatch, fmt.Sprintf("witness %v: %s", w.Values, strings.Join(diff, "; ")))
+				vs := fmt.Sprint(w.Values)
+				if len(vs) > 300 {
+					vs = vs[:300] + "…"
+				}
+				hr.ConfMismatch = append(hr.ConfMismatch, fmt.Sprintf("witness %s: %s", vs, strings.Join(diff, "; ")))
 			}
 		}
 	}
